@@ -245,6 +245,11 @@ def probe_messages():
     out.append(('signal->X', lambda s: R.signal(s, '/a', 'a.b', 'M', [R.S('x')], dest=X_NAME), X_NAME))
     out.append(('error->X', lambda s: R.error(s, 99, 'a.b.Err', X_NAME, [R.S('x')]), X_NAME))
     out.append(('return->X', lambda s: R.method_return(s, 99, X_NAME, [R.S('x')]), X_NAME))
+    out = [t + ('S',) for t in out]
+    # traffic written by X, which is only QUEUED for S's well-known name (a sender= rule for that name must not match it)
+    out.append(('sig from X (queued for S_NAME)', sig(), None, 'X'))
+    out.append(('sig body=s:78 from X (queued for S_NAME)', sig(body=[R.S('x')]), None, 'X'))
+    out.append(('signal X->S', lambda s: R.signal(s, '/a', 'a.b', 'M', [R.S('x')], dest=S_NAME), 'toS', 'X'))
     return out
 
 
@@ -262,33 +267,36 @@ class MatchSession(BusSession):
         self.connect_slot('R2')
         self.method('S', 'RequestName', [R.S(S_NAME), R.U(0)])
         self.method('X', 'RequestName', [R.S(X_NAME), R.U(0)])
+        self.method('X', 'RequestName', [R.S(S_NAME), R.U(0)])       # IN_QUEUE behind S
         for l in ('S', 'X', 'R1', 'R2'):
             self.take(l)
         self.rules = {'R1': [], 'R2': []}      # label -> list of model Rules (multiset, insertion order)
 
-    def view(self, m, target):
-        sender_names = {self.uname['S'], S_NAME}
+    def view(self, m, target, sender='S'):
+        sender_names = {self.uname['S'], S_NAME} if sender == 'S' else {self.uname['X'], X_NAME}
         dest_names = set()
-        if target is not None:
+        if target == 'toS':
+            dest_names = {self.uname['S'], S_NAME}
+        elif target is not None:
             dest_names = {self.uname['X'], X_NAME}
         return M.MsgView(m.mtype, sender_names, dest_names, m.interface, m.member, m.path, m.body, target is not None)
 
     def probe(self, out, which=None, opdesc=''):
-        for i, (desc, build, target) in enumerate(PROBES):
+        for i, (desc, build, target, snd) in enumerate(PROBES):
             if which is not None and i not in which:
                 continue
-            c = self.slots['S']
+            c = self.slots[snd]
             s = self.bus.next_serial(c)
             m = build(s)
-            self.send('S', m)
-            v = self.view(m, target)
+            self.send(snd, m)
+            v = self.view(m, target, snd)
             for holder in ('R1', 'R2'):
                 if not self.is_open(holder):
                     continue
                 want = 1 if any(M.matches(r, v) for r in self.rules[holder]) else 0
                 box = self.take(holder)
-                got = sum(1 for o in box if o.serial == s and o.sender == self.uname['S'])
-                other = [o for o in box if not (o.serial == s and o.sender == self.uname['S'])]
+                got = sum(1 for o in box if o.serial == s and o.sender == self.uname[snd])
+                other = [o for o in box if not (o.serial == s and o.sender == self.uname[snd])]
                 self.hit('probe-deliver' if want else 'probe-silent')
                 if got != want:
                     which_rules = [r.text.decode('latin-1') for r in self.rules[holder]]
@@ -488,8 +496,8 @@ HIST_PROBES = None
 
 
 def hist_probe_indexes():
-    want = {'sig', 'sig path=/b', 'sig member=MM', 'sig path=/a/b'}
-    idx = [i for i, (d, _, _) in enumerate(PROBES) if d in want or d.startswith('sig body=s:78') or d.startswith('sig body=s:7879')]
+    want = {'sig', 'sig path=/b', 'sig member=MM', 'sig path=/a/b', 'sig from X (queued for S_NAME)'}
+    idx = [i for i, (d, _, _, _) in enumerate(PROBES) if d in want or d.startswith('sig body=s:78') or d.startswith('sig body=s:7879')]
     return idx
 
 
